@@ -48,6 +48,11 @@ type c02Case struct {
 	Admit bool `json:",omitempty"`
 	// SlowLog: the builder's Debug logging takes ~300us (see slowLogger)
 	SlowLog bool `json:",omitempty"`
+	// Upgrade: builder and verifier get a rule factory with a scheduled rule change between the
+	// parent's timestamp and now (1: the price floor was 10x+900 higher before, 2: base compute
+	// was 7 higher, 3: storage key costs were 3 higher, 4: the block limit was half); every block
+	// built now is governed by the rules in force at its own timestamp
+	Upgrade int `json:",omitempty"`
 }
 
 // bulkTx is the i-th extra tx: one action touching one or two universe keys.
@@ -133,6 +138,9 @@ func c02Gen(rt *rapid.T) c02Case {
 	}
 	c.Admit = rapid.Bool().Draw(rt, "admit")
 	c.SlowLog = rapid.IntRange(0, 2).Draw(rt, "slowlog") == 0
+	if rapid.IntRange(0, 3).Draw(rt, "upgrademode") == 0 {
+		c.Upgrade = rapid.IntRange(1, 4).Draw(rt, "upgrade")
+	}
 	// sometimes a long minimum gap for empty blocks and one build whose mempool holds only
 	// txs that cannot be included: the builder may then return no block, but never an empty
 	// block inside the gap (the verifier refuses it)
@@ -199,6 +207,24 @@ func c02Run(c c02Case, st *vstat.Stats) error {
 		return err
 	}
 	defer l.close()
+	if c.Upgrade > 0 {
+		before := c.Rules
+		switch c.Upgrade {
+		case 1:
+			for d := range before.MinPrice {
+				before.MinPrice[d] = before.MinPrice[d]*10 + 900
+			}
+		case 2:
+			before.BaseCompute += 7
+		case 3:
+			before.KeyRead, before.KeyAlloc, before.KeyWrite = before.KeyRead+3, before.KeyAlloc+3, before.KeyWrite+3
+		default:
+			for d := range before.MaxBlockUnits {
+				before.MaxBlockUnits[d] /= 2
+			}
+		}
+		l.rf = fixture.SwitchRules{Before: before.Rules(), After: l.rules, At: l.genesis.Tmstmp + 15_000}
+	}
 	nowBase := time.Now().UnixMilli() / 1000 * 1000
 
 	var all []*chain.Transaction // every tx ever added, by global index
@@ -286,6 +312,9 @@ func c02Run(c c02Case, st *vstat.Stats) error {
 		if c.SlowLog {
 			b = l.builderWith(vwBuilder, c.Cores, c.TargetSz, slowLogger{})
 			labels["slow-builder-log"] = true
+		}
+		if c.Upgrade > 0 {
+			labels[fmt.Sprintf("rule-change-between-parent-and-block:%d", c.Upgrade)] = true
 		}
 		blk, out, berr := b.BuildBlock(ctx, &block.Context{}, parentOut)
 		finished := l.waitFinish(60 * time.Second)
